@@ -3,9 +3,17 @@
    after it has been evaluated" holds by construction; on CPython objects it is an observation (snapshots and
    re-evaluation in the harness).  The theorems below are the size / identity part. *)
 From Coq Require Import List Bool Arith.
-From PV Require Import Base.Num Base.Res Base.ListX Model.Replace Model.Dominance Model.RankCrowd Model.Algo
-  Proofs.ReplaceP Proofs.RankCrowdP Proofs.AlgoP.
+From PV Require Import Base.Num Base.Res Base.ListX Model.Replace Model.Dominance Model.RankCrowd Model.Algo Model.Variant
+  Proofs.ReplaceP Proofs.RankCrowdP Proofs.AlgoP Proofs.VariantP.
 Import ListNotations.
+
+(* exactly pop_size offspring are proposed: the mating pipeline of every DE variant returns one trial vector per
+   population member, for every configuration and every draw stream *)
+Theorem C07_offspring_count :
+  forall (N : num) (c : vcfg (N := N)) popX ranks xl xu s U s',
+    variant_do c popX ranks (Some (xl, xu)) s = Ok (U, s') -> 0 < length (hd [] popX) -> length U = length popX.
+Proof. exact @variant_do_length. Qed.
+Print Assumptions C07_offspring_count.
 
 (* DE: pop_size members after every generation, nobody twice *)
 Theorem C07_DE_size :
